@@ -447,3 +447,52 @@ pub fn hyrax_vk_variants<G: AffineRepr>(vk: &HyraxVerifierKey<G>, seed: u64) -> 
     let mut q = vk.clone(); q.h = grp::<G>(seed, 1550); out.push(("vk.h-replaced".to_string(), q));
     out
 }
+
+pub fn kzg_vk_variants<E: Pairing>(vk: &kzg10::VerifierKey<E>, seed: u64) -> Vec<(String, kzg10::VerifierKey<E>)> {
+    let mut out = vec![];
+    let mut q = vk.clone(); q.g = g1::<E>(seed, 1600); out.push(("vk.g-replaced".to_string(), q));
+    let mut q = vk.clone(); q.gamma_g = g1::<E>(seed, 1601); out.push(("vk.gamma_g-replaced".to_string(), q));
+    let mut q = vk.clone(); q.h = g2::<E>(seed, 1602); q.prepared_h = q.h.into(); out.push(("vk.h-replaced".to_string(), q));
+    let mut q = vk.clone(); q.beta_h = g2::<E>(seed, 1603); q.prepared_beta_h = q.beta_h.into(); out.push(("vk.beta_h-replaced".to_string(), q));
+    out
+}
+use ark_poly_commit::multilinear_pc::data_structures as mlds;
+pub fn mlpc_proof_variants<E: Pairing>(p: &Vec<mlds::Proof<E>>, seed: u64) -> Vec<(String, Vec<mlds::Proof<E>>)> {
+    let mut out = vec![];
+    for i in 0..p.len().min(2) {
+        for j in 0..p[i].proofs.len().min(3) {
+            let mut q = p.clone();
+            q[i].proofs[j] = g2::<E>(seed, 1700 + (i * 8 + j) as u64);
+            out.push(("proofs[j]-replaced".to_string(), q));
+        }
+        let mut q = p.clone();
+        q[i].proofs.pop();
+        out.push(("witnesses-shorter".to_string(), q));
+        let mut q = p.clone();
+        q[i].proofs.push(g2::<E>(seed, 1790));
+        out.push(("witnesses-longer".to_string(), q));
+    }
+    if !p.is_empty() {
+        let mut q = p.clone();
+        q.pop();
+        out.push(("proofs-shorter".to_string(), q));
+        let mut q = p.clone();
+        q.push(p[0].clone());
+        out.push(("proofs-longer".to_string(), q));
+    }
+    out
+}
+pub fn mlpc_comm_variants<E: Pairing>(c: &crate::adapters::MlComm<E>, seed: u64) -> Vec<(String, crate::adapters::MlComm<E>)> {
+    vec![("g_product-replaced".to_string(), crate::adapters::MlComm(mlds::Commitment { nv: c.0.nv, g_product: g1::<E>(seed, 1800) }))]
+}
+pub fn mlpc_vk_variants<E: Pairing>(vk: &crate::adapters::MlVk<E>, seed: u64) -> Vec<(String, crate::adapters::MlVk<E>)> {
+    let mut out = vec![];
+    let mut q = vk.clone(); q.0.g = g1::<E>(seed, 1900); out.push(("vk.g-replaced".to_string(), q));
+    let mut q = vk.clone(); q.0.h = g2::<E>(seed, 1901); out.push(("vk.h-replaced".to_string(), q));
+    for i in 0..vk.0.g_mask_random.len().min(3) {
+        let mut q = vk.clone();
+        q.0.g_mask_random[i] = g1::<E>(seed, 1910 + i as u64);
+        out.push(("vk.g_mask_random[i]-replaced".to_string(), q));
+    }
+    out
+}
